@@ -92,12 +92,40 @@ def replay_value(prog, size, staple):
     not_reproduced("partition and unpartitioned graph agree")
 
 
-def replay_fault(prog, size, staple, kind, rank, index):
-    fault = D.Fault(kind, rank, index) if kind not in (None, "none") else None
+def replay_fault(prog, size, staple, kind, rank, index, pair=None):
+    if kind == "pair":
+        fault = [D.Fault(*f) for f in pair]
+    else:
+        fault = D.Fault(kind, rank, index) if kind not in (None, "none") \
+            else None
     try:
         ctxs, res, raised = run_native(prog, size, staple, fault)
     except D.NotApplicable:
         not_reproduced("fault not applicable")
+    if kind == "pair":
+        # two faults may cancel (every message has one send and one receive
+        # again): then the program is valid, or cyclic
+        allctx = {r: D.build_rank(prog, r, size, fault, staple)[0]
+                  for r in range(size)}
+        owners = D.fault_owners(allctx, size)
+        if not owners:
+            if res is None:
+                from pytools.graph import CycleError
+
+                from pytato.distributed.verify import \
+                    PartitionInducedCycleError
+                if all(isinstance(e, (CycleError, PartitionInducedCycleError))
+                       for e in raised.values()):
+                    not_reproduced(f"the faults cancel, the program is "
+                                   f"cyclic: {raised}")
+                reproduced(f"faults {fault} in '{prog}' on {size} ranks "
+                           f"cancel (every message matched) but the program "
+                           f"was rejected: {raised}")
+            bad = D.check_global([s for s, _, _ in res])
+            if bad:
+                reproduced(f"faults {fault} in '{prog}' cancel; partition "
+                           f"unsound: {bad[:3]}")
+            not_reproduced("the faults cancel; partition sound")
     if res is not None:
         reproduced(f"fault {fault} in program '{prog}' on {size} ranks was "
                    "not diagnosed: find_distributed_partition and "
